@@ -1,4 +1,5 @@
 mod checks;
+mod progcheck;
 mod runner;
 mod worker;
 
@@ -61,7 +62,7 @@ fn probe(args: &[String]) {
         }
     }
     println!("=== end {:?} wall {} us threads {}", r.end, r.wall_us, r.server_threads);
-    if r.end != End::Done {
+    if r.end != End::Done || std::env::var("PROBE_STDERR").is_ok() {
         println!("stderr tail: {}", r.stderr_tail);
     }
 }
@@ -74,6 +75,23 @@ fn main() {
     }
     if args[0] == "probe" {
         probe(&args[1..]);
+        return;
+    }
+    if args[0] == "gen" {
+        // svcheck gen <seed> <count>: print generated programs with the model's verdict
+        let seed: u64 = args.get(1).and_then(|s| s.parse().ok()).unwrap_or(1);
+        let count: usize = args.get(2).and_then(|s| s.parse().ok()).unwrap_or(5);
+        let mut x = seed.wrapping_mul(0x9E3779B97F4A7C15) | 1;
+        for i in 0..count {
+            let data: Vec<u16> = (0..300).map(|_| { x ^= x << 13; x ^= x >> 7; x ^= x << 17; (x >> 20) as u16 }).collect();
+            let c = checks::c01::case_from_choices(&data, checks::c01::opts(vec![]));
+            println!(";;; ---- program {} features {:?}", i, c.features);
+            println!("{}", c.text);
+            match progcheck::model_run(&c.program) {
+                Some(m) => println!(";;; model: {:?} values {:?} stdout {:?} steps {}", m.result.outcome, m.result.values, m.result.stdout, m.result.steps),
+                None => println!(";;; model: outside domain"),
+            }
+        }
         return;
     }
     let prop = args[0].clone();
